@@ -36,10 +36,10 @@ Section StmtFormatter.
     | a :: t => fmt F a st0 ++ TNL O :: fmt_lines t
     end.
 
-  (* VarDefKind::Main / Into: `match &val.kind { Pipeline(p) => one element per line, _ => val.write }` -- the
-     alias of the value is not looked at when its kind is a pipeline *)
+  (* VarDefKind::Main / Into: `match &val.kind { Pipeline(p) if val.alias.is_none() => one element per line,
+     _ => val.write }` (the guard since commit e3202e5: an aliased pipeline is written as one aliased expression) *)
   Definition fmt_value_lines (v : expr) : list tok :=
-    match (match v with EAlias _ k => k | _ => v end) with
+    match v with
     | EGroup GPipe es => fmt_lines es
     | _ => fmt F v st0
     end.
@@ -238,13 +238,10 @@ Fixpoint adjacent_mains (ss : list stmt) : bool :=
   | _ => false
   end.
 
-(* Known class 2 (finding C14-main-pipeline-alias): the value of a main pipeline / `into` is a pipeline that carries an
-   alias (`x = (from a | select b)` as a statement): the Main arm looks at `val.kind` only and drops the alias. *)
-Definition aliased_pipeline (v : expr) : bool := match v with EAlias _ (EGroup GPipe _) => true | _ => false end.
-
+(* (The former second class -- C14-main-pipeline-alias: the value of a main pipeline is a pipeline that carries an alias --
+   was repaired by commit e3202e5; `alias_pipeline_witness` in Proofs/FmtInstProofs.v now round-trips.) *)
 Fixpoint known_stmt (s : stmt) : bool :=
   match s with
-  | SMain _ v | SInto _ v _ => aliased_pipeline v
   | SModule _ _ body =>
       adjacent_mains body || (fix go (l : list stmt) : bool := match l with [] => false | a :: t => known_stmt a || go t end) body
   | _ => false
